@@ -13,9 +13,11 @@ from .simulate import simulate
 from .util import h64, sha, canon, short
 
 VERIF = os.path.dirname(os.path.dirname(os.path.abspath(__file__)))
-EVIDENCE_DIR = os.path.join(VERIF, 'evidence')
-REPLAY_DIR = os.path.join(VERIF, 'replays')
-KNOWN_FILE = os.path.join(VERIF, 'known_findings.json')
+# (the directories can be redirected so that self-tests against scratch copies of the
+# repository never touch the real evidence and replay files)
+EVIDENCE_DIR = os.environ.get('VERIF_EVIDENCE_DIR') or os.path.join(VERIF, 'evidence')
+REPLAY_DIR = os.environ.get('VERIF_REPLAY_DIR') or os.path.join(VERIF, 'replays')
+KNOWN_FILE = os.environ.get('VERIF_KNOWN_FILE') or os.path.join(VERIF, 'known_findings.json')
 
 ASSUMPTIONS = [
     'A1 a cache dict is shared only between calls whose merged stylesheet snippet table is equal (the cache carries no identity of the table it was built from)',
